@@ -134,7 +134,7 @@ fn near_boundary(i: &BigInt) -> bool {
     pts.iter().any(|p| (i - p).magnitude() <= &num_bigint::BigUint::from(2u8))
 }
 
-pub const PROBES: [&str; 21] = [
+pub const PROBES: [&str; 23] = [
     "output_lovelace",
     "output_token",
     "mint",
@@ -156,6 +156,8 @@ pub const PROBES: [&str; 21] = [
     "since_slot_from_slot_to_time",
     "until_slot_from_time_to_slot",
     "metadata_from_slot_to_time_plus_parameter",
+    "token_terms_subtracted_from_a_value_without_them",
+    "lovelace_terms_subtracted_from_nothing",
 ];
 
 pub fn boundary_values() -> Vec<BigInt> {
@@ -227,6 +229,15 @@ pub fn probe(kind: usize, x: &BigInt, y: &BigInt) -> Case {
             tx.metadata = Some(vec![(GExpr::Int(7), GExpr::Add(Box::new(GExpr::SlotToTime(px())), py()))]);
             tx.outputs.push(base_out(two_ada.clone()));
         }
+        // a class the left side does not hold is subtracted twice: -x - y may fit although -x alone does not
+        "token_terms_subtracted_from_a_value_without_them" => tx.outputs.push(base_out(GExpr::Sub(
+            Box::new(GExpr::Sub(Box::new(two_ada.clone()), Box::new(GExpr::Asset(0, px())))),
+            Box::new(GExpr::Asset(0, py())),
+        ))),
+        "lovelace_terms_subtracted_from_nothing" => tx.outputs.push(base_out(GExpr::Sub(
+            Box::new(GExpr::Sub(Box::new(GExpr::Asset(0, Box::new(GExpr::Int(5)))), Box::new(GExpr::Ada(px())))),
+            Box::new(GExpr::Ada(py())),
+        ))),
         "metadata_value" => {
             tx.metadata = Some(vec![(GExpr::Int(7), GExpr::Param(0))]);
             tx.outputs.push(base_out(two_ada.clone()));
